@@ -39,14 +39,18 @@ def chirp_phase_cycles(dm, f_hz, ref_hz):
     return K_HZ * dm * f_hz * d * d
 
 
-def coherent_crop(dm, fmax, fmin, ref, rate, N):
-    """(start, stop, ambiguous) of coherent dedispersion per the specification."""
+def coherent_crop(dm, fmax, fmin, ref, rate, N, zero_exact=False):
+    """(start, stop, ambiguous) of coherent dedispersion per the specification.
+
+    A band-edge delay within the float64 evaluation bound of a whole sample (including 0, unless the
+    reference frequency is the identical Quantity as that band edge: ``zero_exact``) makes the ceil
+    ambiguous."""
     dt_ = delay_s(dm, fmax, ref) * rate
     db_ = delay_s(dm, fmin, ref) * rate
     eps = max(delay_err_bound(dm, fmax, ref, rate), delay_err_bound(dm, fmin, ref, rate)) + F(1, 10 ** 9)
     amb = False
     for d in (dt_, db_):
-        if abs(d - round(d)) <= eps and d != 0:
+        if abs(d - round(d)) <= eps and not (d == 0 and zero_exact):
             amb = True
     start = math.ceil(-min(0, dt_, db_))
     stop = N - math.ceil(max(0, dt_, db_))
